@@ -11,6 +11,7 @@ import Solvor.Sat.Theorems
 #print axioms Solvor.Sat.cdcl_infeasible_sound_partial
 #print axioms Solvor.Sat.cdcl_verdicts_partial
 #print axioms Solvor.Sat.cdcl_returns_models_partial
+#print axioms Solvor.Sat.cdcl_fuel_suffices_partial
 #print axioms Solvor.Sat.luby_pos
 #print axioms Solvor.Sat.luby_pow2
 #print axioms Solvor.Sat.luby_fuel
